@@ -83,6 +83,8 @@ pub struct DsOpts {
     pub xs_case: bool,
     /// allow non-finite floats
     pub nonfinite: bool,
+    /// allow (7FE0,0010) inside sequence items as well (icon images and the like)
+    pub nested_pixel: bool,
 }
 
 impl Default for DsOpts {
@@ -102,6 +104,7 @@ impl Default for DsOpts {
             vrs: None,
             xs_case: true,
             nonfinite: true,
+            nested_pixel: false,
         }
     }
 }
@@ -471,7 +474,7 @@ fn gen_seq(rng: &mut Rng, o: &DsOpts, depth: usize) -> GVal {
         .map(|_| {
             let mut sub = o.clone();
             sub.max_elems = 5;
-            sub.pixel = false;
+            sub.pixel = o.pixel && o.nested_pixel && rng.chance(1, 3);
             sub.xs_case = false;
             let elems = if rng.chance(1, 8) {
                 Vec::new()
@@ -646,7 +649,11 @@ fn gen_dataset_at(rng: &mut Rng, o: &DsOpts, depth: usize) -> GDataset {
                 }
             }
         }
-        if o.pixel && rng.chance(1, 4) {
+    }
+    // (7FE0,0010): at the top level, and inside items when the caller asked for it
+    // (gen_seq clears `pixel` for items unless `nested_pixel` is set)
+    if depth == 0 || o.nested_pixel {
+        if o.pixel && rng.chance(1, if depth == 0 { 4 } else { 2 }) {
             let val = if o.encapsulated && rng.bool() {
                 gen_pixel_fragments(rng, o.zero_frags)
             } else {
